@@ -16,6 +16,7 @@ struct rec {
   char* out; size_t len, cap;
   const unsigned char* base;
   int count;
+  size_t bias;   /* added to payload offsets (FRAG: offset of the buffered window in the whole stream) */
 };
 static void rec_add(struct rec* r, const char* fmt, ...) {
   va_list ap;
@@ -36,9 +37,9 @@ static void r_negint8(void* ctx, uint8_t v) { rec_add(R, "negint8 %u", v); }
 static void r_negint16(void* ctx, uint16_t v) { rec_add(R, "negint16 %u", v); }
 static void r_negint32(void* ctx, uint32_t v) { rec_add(R, "negint32 %u", v); }
 static void r_negint64(void* ctx, uint64_t v) { rec_add(R, "negint64 %" PRIu64, v); }
-static void r_bs(void* ctx, cbor_data d, uint64_t l) { rec_add(R, "byte_string %zu %" PRIu64, (size_t)(d - R->base), l); }
+static void r_bs(void* ctx, cbor_data d, uint64_t l) { rec_add(R, "byte_string %zu %" PRIu64, (size_t)(d - R->base) + R->bias, l); }
 static void r_bss(void* ctx) { rec_add(R, "byte_string_start"); }
-static void r_s(void* ctx, cbor_data d, uint64_t l) { rec_add(R, "string %zu %" PRIu64, (size_t)(d - R->base), l); }
+static void r_s(void* ctx, cbor_data d, uint64_t l) { rec_add(R, "string %zu %" PRIu64, (size_t)(d - R->base) + R->bias, l); }
 static void r_ss(void* ctx) { rec_add(R, "string_start"); }
 static void r_ias(void* ctx) { rec_add(R, "indef_array_start"); }
 static void r_as(void* ctx, uint64_t n) { rec_add(R, "array_start %" PRIu64, n); }
@@ -72,6 +73,32 @@ static void op_sd(const char* hex) {
   printf("%d %zu %zu %s ok=%d\n", (int)res.status, res.read, res.required, r.count ? r.out : "none",
          after == before ? 1 : 0);
   free(r.out); free_exact(xb);
+}
+
+/* FRAG <hex> <first> <a1,a2,..|->: the buffering client of C09 against the real decoder.  Each call sees an exactly-sized heap copy of
+   the bytes buffered from the current position, so a read beyond what has arrived is an ASan report.  -> <#events> <events> */
+static void op_frag(const char* hex, size_t first, const char* cuts) {
+  struct xbuf all = hex_to_exact(hex);
+  size_t size = all.n, p = 0, avail = first > size ? size : first;
+  const char* c = cuts[0] == '-' ? "" : cuts;
+  struct rec r = {0};
+  for (size_t guard = 0; guard < 2 * size + 2; guard++) {
+    struct xbuf win = exact_copy(all.p + p, avail - p);
+    r.base = win.p; r.bias = p;
+    struct cbor_decoder_result res = cbor_stream_decode(win.p, avail - p, &rec_callbacks, &r);
+    free_exact(win);
+    if (res.status == CBOR_DECODER_FINISHED) { p += res.read; continue; }
+    if (res.status == CBOR_DECODER_NEDATA) {
+      size_t target = p + res.required;
+      while (avail < target && *c) { avail += strtoull(c, (char**)&c, 10); if (*c == ',') c++; if (avail > size) avail = size; }
+      if (avail < target) break;      /* the stream ended inside an item */
+      continue;
+    }
+    break;                            /* ERROR */
+  }
+  if (r.out) r.out[r.len] = 0;
+  printf("%d %s\n", r.count, r.count ? r.out : "none");
+  free(r.out); free_exact(all);
 }
 
 /* ENC <fn> <value> <n> */
@@ -161,6 +188,7 @@ int gen_op(int argc, char** w) {
   if (argc == 2 && !strcmp(w[0], "F32ALL")) { op_f32all((unsigned)strtoul(w[1], 0, 10)); return 1; }
   if (argc == 3 && !strcmp(w[0], "UTF8ALL")) { op_utf8all(strtoull(w[1], 0, 10), w[2]); return 1; }
   if (argc == 2 && !strcmp(w[0], "SD")) { op_sd(w[1]); return 1; }
+  if (argc == 4 && !strcmp(w[0], "FRAG")) { op_frag(w[1], strtoull(w[2], 0, 10), w[3]); return 1; }
   if (argc == 4 && !strcmp(w[0], "ENC")) return op_enc(w[1], strtoull(w[2], 0, 10), strtoull(w[3], 0, 10));
   if (argc == 2 && !strcmp(w[0], "UTF8")) { op_utf8(w[1]); return 1; }
   if (argc == 3 && !strcmp(w[0], "MUL")) { printf("%d ok=1\n", _cbor_safe_to_multiply(strtoull(w[1], 0, 10), strtoull(w[2], 0, 10))); return 1; }
